@@ -3,7 +3,7 @@
    brokerhttp predict <h0|h1> <endpoint> <options 0|1> <read ok|toolarge> <legacy 0|1> <ipc ok|bad|internal|other> <resp x..> <decoded none|x<answer>:x<error>> <prefix_ok 0|1> <pathdec 0|1>
    -> status=<n> body=x<hex> | panic *)
 From Coq Require Import List NArith Bool String.
-From Snow Require Import Lib.Wire Model.BrokerHttp.
+From Snow Require Import Lib.Wire Model.BrokerHttp Model.B64Url Model.AmpPath.
 Import ListNotations.
 Open Scope N_scope.
 
@@ -13,7 +13,7 @@ Definition hresp_print (h : hresp) : bytes :=
   | HResp st b => bs "status=" ++ dec_print st ++ bs " body=x" ++ hex_encode b
   end.
 
-Definition run (args : list bytes) : bytes :=
+Definition run_predict (args : list bytes) : bytes :=
   match args with
   | [op; v; ep; opt; rd; leg; ipc; resp; dec; pfx; pdec] =>
       if negb (beq op (bs "predict")) then ERR_BADCASE else
@@ -45,4 +45,87 @@ Definition run (args : list bytes) : bytes :=
       | _, _, _, _, _, _ => ERR_BADCASE
       end
   | _ => ERR_BADCASE
+  end.
+
+(* ---------------- the refined model ----------------
+   brokerhttp serve <via mux|amp|metrics> <method x> <urlpath x> <hdrs k:v,k:v|-> <body payload> <ipc ok|bad|internal|other>
+                    <resp x> <dec none|xA:xE> <errresp x> <snow ptype:nat,...|-> <metrics n|x..> <prom x>
+     -> status=<n> body=x<hex> cors=<0|1> nat=x<hex> ipc=<0|1> | panic
+   via = mux: the route is chosen from the path; amp / metrics: that handler is called directly (as the in-package
+   driver does with a path the mux would not let through / another metrics file).
+   The IPC outcome of the (single) IPC call of the request and the views are supplied per case; the broker state
+   is unit here (the state argument of the theorems is exercised by the seq cases of the check).
+   brokerhttp debugview <snow> -> x<hex of the /debug body>
+   brokerhttp hdrget <hdrs> <key x> -> x<hex> *)
+Definition kv_parse (t : bytes) : option (bytes * bytes) :=
+  match split_on COLON t with
+  | [a; b] => match payload_parse a, payload_parse b with Some a', Some b' => Some (a', b') | _, _ => None end
+  | _ => None
+  end.
+Definition opt_tok (t : bytes) : option (option bytes) :=
+  if beq t (bs "n") then Some None else option_map Some (payload_parse t).
+Definition amp_dec_real (p : bytes) : option bytes := match decode_path p with POk d => Some d | PErr _ => None end.
+
+Definition resp_print (o : outc resp) : bytes :=
+  match o with
+  | Panicked => bs "panic"
+  | Ret r => bs "status=" ++ dec_print (p_status r) ++ bs " body=x" ++ hex_encode (p_body r) ++ bs " cors=" ++ bool_print (p_cors r)
+  end.
+
+Definition run_serve (args : list bytes) : bytes :=
+  match args with
+  | [via; m; path; hdrs; body; ipc; resp; dec; errresp; snow; metrics; prom] =>
+      match payload_parse m, payload_parse path, list_parse kv_parse hdrs, payload_parse body, payload_parse resp,
+            payload_parse errresp, list_parse kv_parse snow, opt_tok metrics, payload_parse prom with
+      | Some m, Some path, Some hdrs, Some body, Some response, Some errresp, Some snow, Some metrics, Some prom =>
+          let ipcv := if beq ipc (bs "ok") then IpcOk response
+                      else if beq ipc (bs "bad") then IpcBadRequest
+                      else if beq ipc (bs "internal") then IpcInternal else IpcOtherErr in
+          let decoded : option cpresp :=
+            if beq dec (bs "none") then None
+            else match split_on COLON dec with
+                 | [a; e] => match payload_parse a, payload_parse e with
+                             | Some a', Some e' => Some {| r_answer := a'; r_error := e' |}
+                             | _, _ => None
+                             end
+                 | _ => None
+                 end in
+          let q := {| q_method := m; q_path := path; q_hdrs := hdrs; q_sent := body |} in
+          let view := fun _ : unit => {| v_snowflakes := snow; v_metrics := metrics; v_prom := prom |} in
+          let ipcf := fun (s : unit) (_ : bytes) => (ipcv, s) in
+          let r := if beq via (bs "amp") then Some RAmp else if beq via (bs "metrics") then Some RMetrics
+                   else if beq via (bs "mux") then Some (route_of path) else None in
+          match r with
+          | None => ERR_BADCASE
+          | Some r =>
+              let (o, _) := handle unit view (fun o n => [49]) (fun _ => decoded) (fun _ => errresp) amp_dec_real (fun b => b)
+                                   ipcf ipcf ipcf H1 r tt q in
+              resp_print (respond q o) ++ bs " nat=x" ++ hex_encode (header_get hdrs NAT_HEADER)
+              ++ bs " ipc=" ++ bool_print (reaches_ipc amp_dec_real q)
+          end
+      | _, _, _, _, _, _, _, _, _ => ERR_BADCASE
+      end
+  | _ => ERR_BADCASE
+  end.
+
+Definition run (args : list bytes) : bytes :=
+  match args with
+  | op :: rest =>
+      if beq op (bs "predict") then run_predict args
+      else if beq op (bs "serve") then run_serve rest
+      else if beq op (bs "debugview") then
+        match rest with
+        | [snow] => match list_parse kv_parse snow with Some sf => 120 :: hex_encode (debug_body sf) | None => ERR_BADCASE end
+        | _ => ERR_BADCASE
+        end
+      else if beq op (bs "hdrget") then
+        match rest with
+        | [hdrs; key] => match list_parse kv_parse hdrs, payload_parse key with
+                         | Some h, Some k => 120 :: hex_encode (header_get h k)
+                         | _, _ => ERR_BADCASE
+                         end
+        | _ => ERR_BADCASE
+        end
+      else ERR_BADCASE
+  | [] => ERR_BADCASE
   end.
